@@ -17,7 +17,14 @@ structure View where
   structs : List SInfo
   deriving DecidableEq
 
-def viewOf (a : Analysis) : View := { commands := a.commands, events := a.events.map evView, structs := a.structs }
+/-- what the hash needs of a command / a field for the output to be determined: everything but the file a command was found
+    in, whether it is `async`, and whether a field is `pub` (all three are hashed by the tool, none is read by a generator) -/
+def normC (c : CInfo) : CInfo := { c with file := [], isAsync := false }
+def normF (f : FInfo) : FInfo := { f with isPublic := false }
+def normS (s : SInfo) : SInfo := { s with fields := s.fields.map normF }
+
+def viewOf (a : Analysis) : View :=
+  { commands := a.commands.map normC, events := a.events.map evView, structs := a.structs.map normS }
 
 /-- the dependency sets as a function of the discovered types -/
 def depsOfStruct (s : SInfo) : Str × List Str := (s.name, O.sortNames (harvestAll (s.fields.map (·.rustType))))
@@ -110,21 +117,147 @@ theorem generate_erase (cfg : Config) (a : Analysis) : generate cfg (eraseA a) =
   rw [tsTypes_erase, zodTypes_erase, isEmpty_erase, eventsFile_erase, index_erase]
   rfl
 
+/-! ### … nor the file a command was found in, nor whether it is `async`, nor whether a field is `pub` -/
+
+def normA (a : Analysis) : Analysis := { a with commands := a.commands.map normC, structs := a.structs.map normS }
+
+theorem findStruct_norm (l : List SInfo) (n : Str) : findStruct (l.map normS) n = (findStruct l n).map normS := by
+  unfold findStruct
+  induction l with
+  | nil => rfl
+  | cons s l ih =>
+    simp only [List.map_cons, List.find?_cons]
+    have : (normS s).name = s.name := rfl
+    rw [this]
+    split <;> simp_all
+
+theorem fieldRefs_norm (s : SInfo) :
+    ((normS s).fields.flatMap fun f => customs (tsOfStr f.rustType)) = (s.fields.flatMap fun f => customs (tsOfStr f.rustType)) := by
+  simp only [normS, List.flatMap_map, normF]
+
+theorem nested_norm (l : List SInfo) : ∀ (fuel : Nat) (todo seen : List Str),
+    nested (l.map normS) fuel todo seen = nested l fuel todo seen
+  | 0, _, _ => by simp [nested]
+  | _+1, [], _ => by simp [nested]
+  | fuel+1, n :: todo, seen => by
+    unfold nested
+    rw [findStruct_norm]
+    cases h : findStruct l n with
+    | none => simp only [Option.map_none]; exact nested_norm l fuel todo seen
+    | some s =>
+      simp only [Option.map_some]
+      rw [fieldRefs_norm]
+      have hf : ∀ r, (findStruct (l.map normS) r).isSome = (findStruct l r).isSome := by
+        intro r; rw [findStruct_norm]; simp
+      simp only [hf]
+      exact nested_norm l fuel _ _
+
+theorem usedNames_norm (a : Analysis) : usedNames (normA a) = usedNames a := by
+  unfold usedNames normA
+  simp only [List.flatMap_map, List.length_map, nested_norm]
+  have hf : ∀ r, (findStruct (a.structs.map normS) r).isSome = (findStruct a.structs r).isSome := by
+    intro r; rw [findStruct_norm]; simp
+  simp only [hf]
+  rfl
+
+theorem tsStructDecl_norm (cfg : Config) (s : SInfo) : tsStructDecl cfg (normS s) = tsStructDecl cfg s := by
+  simp only [tsStructDecl, normS, normF, fieldKey, List.map_map, List.flatMap_map, Function.comp_def]
+  rfl
+
+theorem zodStructDecl_norm (cfg : Config) (s : SInfo) : zodStructDecl cfg (normS s) = zodStructDecl cfg s := by
+  simp only [zodStructDecl, zodEnumDecl, zodObjectDecl, normS, normF, fieldKey, List.map_map, List.flatMap_map, Function.comp_def]
+
+theorem insertBy_map {α : Type} (key : α → Str) (g : α → α) (hk : ∀ x, key (g x) = key x) (x : α) :
+    ∀ (l : List α), insertBy key (g x) (l.map g) = (insertBy key x l).map g
+  | [] => rfl
+  | y :: ys => by
+    simp only [List.map_cons, insertBy, hk]
+    split
+    · rfl
+    · simp only [List.map_cons, insertBy_map key g hk x ys]
+
+theorem sortBy_map {α : Type} (key : α → Str) (g : α → α) (hk : ∀ x, key (g x) = key x) :
+    ∀ (l : List α), sortBy key (l.map g) = (sortBy key l).map g
+  | [] => rfl
+  | x :: xs => by simp only [List.map_cons, sortBy, sortBy_map key g hk xs, insertBy_map key g hk]
+
+theorem structsSorted_norm (a : Analysis) : structsSortedByName (normA a) = (structsSortedByName a).map normS := by
+  unfold structsSortedByName
+  rw [usedNames_norm]
+  have : (usedNames a).filterMap (findStruct (normA a).structs) = ((usedNames a).filterMap (findStruct a.structs)).map normS := by
+    simp only [normA, List.map_filterMap]
+    congr 1
+    funext n
+    exact findStruct_norm a.structs n
+  rw [this]
+  exact sortBy_map _ normS (fun _ => rfl) _
+
+theorem hasChannels_norm (a : Analysis) : hasChannels (normA a) = hasChannels a := by
+  simp only [hasChannels, normA, List.any_map, Function.comp_def, normC]
+
+theorem tsTypes_norm (cfg : Config) (a : Analysis) : tsTypesFile cfg (normA a) = tsTypesFile cfg a := by
+  unfold tsTypesFile
+  rw [hasChannels_norm, structsSorted_norm]
+  simp only [List.map_map, normA, List.filterMap_map]
+  congr 2
+  · apply List.map_congr_left; intro s _; exact tsStructDecl_norm cfg s
+
+theorem zodOrder_norm (a : Analysis) : zodOrder (normA a) = zodOrder a := by
+  unfold zodOrder
+  rw [usedNames_norm]
+  rfl
+
+theorem zodTypes_norm (cfg : Config) (a : Analysis) : zodTypesFile cfg (normA a) = zodTypesFile cfg a := by
+  unfold zodTypesFile
+  rw [hasChannels_norm, zodOrder_norm, usedNames_norm]
+  have h1 : ((zodOrder a).filterMap fun n => if (usedNames a).contains n then findStruct (normA a).structs n else none) =
+      ((zodOrder a).filterMap fun n => if (usedNames a).contains n then findStruct a.structs n else none).map normS := by
+    simp only [normA, List.map_filterMap, findStruct_norm]
+    congr 1
+    funext n
+    split <;> rfl
+  rw [h1]
+  simp only [List.flatMap_map, normA, List.filterMap_map, zodStructDecl_norm]
+  rfl
+
+theorem commands_norm (cfg : Config) (a : Analysis) :
+    tsCommandsFile cfg (normA a) = tsCommandsFile cfg a ∧ zodCommandsFile cfg (normA a) = zodCommandsFile cfg a := by
+  constructor
+  · simp only [tsCommandsFile, invokeImport, hasChannels_norm]
+    simp only [normA, List.map_map]
+    rfl
+  · simp only [zodCommandsFile, invokeImport, hasChannels_norm]
+    simp only [normA, List.map_map]
+    rfl
+
+/-- **no generator reads the file of a command, its `async`, or the visibility of a field** -/
+theorem generate_norm (cfg : Config) (a : Analysis) : generate cfg (normA a) = generate cfg a := by
+  unfold generate
+  rw [tsTypes_norm, zodTypes_norm, (commands_norm cfg a).1, (commands_norm cfg a).2]
+  rfl
+
 /-- an analysis rebuilt from its hashed view -/
 def ofView (v : View) : Analysis :=
   { commands := v.commands, events := v.events.map (fun e => { name := e.1, payload := e.2, file := [] }),
     structs := v.structs, deps := v.structs.map depsOfStruct }
 
-theorem eraseA_analyze (p : Project) : eraseA (analyze p) = ofView (viewOf (analyze p)) := by
+theorem depsOfStruct_norm (s : SInfo) : depsOfStruct (normS s) = depsOfStruct s := by
+  simp only [depsOfStruct, normS, normF, List.map_map, Function.comp_def]
+
+theorem norm_erase_analyze (p : Project) : normA (eraseA (analyze p)) = ofView (viewOf (analyze p)) := by
   have h := deps_of_structs p
-  unfold eraseA ofView viewOf
+  unfold normA eraseA ofView viewOf
   simp only [List.map_map]
   congr 1
+  · rw [h]
+    apply List.map_congr_left
+    intro s _
+    exact (depsOfStruct_norm s).symm
 
 /-- **the generation is a function of the hashed view and the configuration** -/
 theorem generate_of_view (cfg : Config) (p : Project) :
     generate cfg (analyze p) = generate cfg (ofView (viewOf (analyze p))) := by
-  rw [← eraseA_analyze, generate_erase]
+  rw [← norm_erase_analyze, generate_norm, generate_erase]
 
 /-- **key soundness, concrete**: two projects whose analyses have the same hashed view generate the same output under the
     same configuration (this discharges the `keySound` hypothesis of `C08` for the model's generators, with the key
